@@ -344,7 +344,7 @@ def join_specs(ctx):
 
 def run(ctx):
     scratch = ctx.scratch
-    nmax = 8 if ctx.quick else 12
+    nmax = 10 if ctx.quick else 12
     sitems = []
     for n in range(1, nmax + 1):
         for size in range(1, n + 3):
